@@ -10,7 +10,7 @@
 (* successor state.  Observed artefacts and source trees come in through   *)
 (* JSON (IOEnv.TV_FILE), produced from the real compiler by the harness.   *)
 (***************************************************************************)
-EXTENDS CSem, RzIL, Json, IOUtils, TLCExt
+EXTENDS CSem, RzIL, Shapes, Json, IOUtils, TLCExt
 
 Data == JsonDeserialize(IOEnv.TV_FILE)
 Cases == Data.cases
@@ -186,7 +186,8 @@ CheckOne(cs, o, s0, ref, kk) ==
                             LET dref == RunSrc(cs, s0, kk, {DevSets[d][j] : j \in 1..Len(DevSets[d])})
                             IN  ~dref.unspec /\ ~dref.diverged /\ Agree(cs, dref, ist) /\ RetAgree(cs, dref, ist)}
             IN  IF expl # {} THEN [r |-> "deviation", dev |-> DevSets[CHOOSE d \in expl : \A d2 \in expl : d <= d2]]
-                ELSE [r |-> "mismatch", diff |-> Diff(cs, ref, ist), ret |-> RetAgree(cs, ref, ist)]
+                ELSE [r |-> "mismatch", diff |-> Diff(cs, ref, ist), ret |-> RetAgree(cs, ref, ist),
+                      shapes |-> ShapesOf(cs.src.body)]
 
 Check(ci, kk) ==
     LET cs == Cases[ci]
